@@ -168,6 +168,8 @@ def select_events(reg, names, rng):
             for n in ("data.bin", "traj.pdb", "noext"):
                 for op in OPS:
                     calls.append((n, sub, op, None))
+            for op in OPS:
+                calls.append(("", sub, op, None))      # the directory itself, written with a trailing separator: its base name is empty
         for n in ("whatever.bin", "a.xyz", "FCIDUMP.molden"):
             for op in OPS:
                 for f in modnames + ["no_such_format", "XYZ", ""]:
@@ -182,7 +184,7 @@ def select_events(reg, names, rng):
                     d = os.path.join(tmp, f"r{rnd}", str(ci), sub)
                     os.makedirs(d, exist_ok=True)
                     path = os.path.join(d, n)
-                    if op.startswith("load"):
+                    if op.startswith("load") and n:
                         with open(path, "w") as fh:
                             fh.write("dummy\n")
                     res = run_select(path, op, f)
